@@ -390,7 +390,13 @@ func c01Run(rt *hookrt.Runtime, c *c01Case, stall time.Duration) {
 		c.mu.Lock()
 		c.accepted[0]++
 		c.mu.Unlock()
-		err := psFor(0).Publish(topic(0), c01Make(c01Msg{Lin: lin, Path: []int{}}))
+		srcMsg := c01Make(c01Msg{Lin: lin, Path: []int{}})
+		err := psFor(0).Publish(topic(0), srcMsg)
+		// the producer recycles its message object once Publish has returned: whatever travels
+		// through the pipeline afterwards (redeliveries included) must be what was published
+		srcMsg.UUID = "recycled-never-published"
+		srcMsg.Payload = []byte("recycled-never-published")
+		srcMsg.Metadata.Set("lin", "77777")
 		c.mu.Lock()
 		if err != nil {
 			c.accepted[0]--
